@@ -52,11 +52,13 @@ class Gen:
         k = r.random()
         if k < 0.45 or depth > 2:
             t = r.choice(BLOCK[:5])
-            attrs = r.choice(['', '', ' class="c"', ' id="i%d"' % r.randint(1, 9), ' title="a &quot;q&quot; &lt;t&gt;"'])
+            attrs = r.choice(['', '', ' class="c"', ' id="i%d"' % r.randint(1, 9), ' title="a &quot;q&quot; &lt;t&gt;"',
+                              ' style="display: inline"', ' style="display:inline-block; color: red"', ' hidden', ' role="presentation" class="inline"'])
             return '<%s%s>%s</%s>' % (t, attrs, self.inlines(), t)
         if k < 0.60:
             t = r.choice(['ul', 'ol'])
-            return '<%s>%s</%s>' % (t, ''.join('<li>%s</li>' % self.inlines() for _ in range(r.randint(1, 3))), t)
+            return '<%s>%s</%s>' % (t, ''.join('<li%s>%s</li>' % (r.choice(['', '', '', ' style="display: inline;"', ' class="inline-list"']), self.inlines())
+                                               for _ in range(r.randint(1, 3))), t)
         if k < 0.70:
             rows = ''.join('<tr>%s</tr>' % ''.join('<td>%s</td>' % self.words(1, 2) for _ in range(r.randint(1, 3)))
                            for _ in range(r.randint(1, 2)))
